@@ -965,6 +965,13 @@ def inside_at_word_boundaries(small: str, big: str) -> bool:
 
 
 REGEX_METACHARS = set('+*?.()[]{}|^$\\')
+# Hazard classes that no longer break the code under test (repaired there).
+# They are still generated and counted as input classes, but no longer used
+# to name a finding: if one of them breaks again the finding is reported
+# under its symptom.
+RETIRED_HAZARDS = frozenset({
+    'alias-qualifier-prefix-of-another-with-offset',
+})
 
 
 def hostile_features(nodes: Iterable[Node],
@@ -1023,7 +1030,7 @@ def hostile_features(nodes: Iterable[Node],
                 elif offset and b.startswith(a):
                     feats.append('alias-qualifier-prefix-of-another-'
                                  'with-offset')
-    return sorted(set(feats))
+    return sorted(set(feats) - RETIRED_HAZARDS)
 
 
 def duplicate_node_classes(nodes: Iterable[Node]) -> List[str]:
